@@ -5,7 +5,7 @@ on every check run, from the CURRENT source text.  Output: SlacModel/Generated/S
 hand-written builtin models (SlacModel/Stdlib.lean, StdOrder.lean) equal to the generated functions.
 
 Translated: Value::len (value.rs); get_index, get_string_index, default_string, default_number, smart_vec (mod.rs);
-            at, between, bool, compare, empty, if_then, length, all, any, max, min, reverse, float, int, copy, count, find, replace, contains, insert, unique (common.rs);
+            at, between, bool, compare, empty, if_then, length, all, any, max, min, reverse, float, int, copy, count, find, replace, contains, insert, unique, sort (common.rs);
             is_even, even, odd, pow (math.rs); chr, ord, split, lowercase, uppercase, same_text, trim, trim_left, trim_right (string.rs).
 Reading of Rust beyond tools/rs2lean.py (same conventions: ownership erased, Result = Except, slice patterns matched top to bottom, a guarded
 arm falls through):
@@ -72,6 +72,12 @@ class StdCtx(Ctx):
             # `v.insert(i, x);` on a local Vec: rebinding (Vec::insert shifts the elements from position i on)
             if st[0] == 'expr' and st[1][0] == 'mcall' and st[1][2] == 'insert' and st[1][1][0] == 'path' and len(st[1][1][1]) == 1 and len(st[1][4]) == 2:
                 stmts = stmts[:i] + [('let', ('pbind', st[1][1][1][0]), ('call', ('path', ['__insert_at']), [st[1][1]] + st[1][4]))] + stmts[i + 1:]
+                return self.block(('block', stmts, tail), env)
+            # `v.sort();` on a local Vec<Value>: std's STABLE sort by `Ord::cmp` — on a collection that `cmp` orders as a total preorder this is the unique stable sorted
+            # permutation, which the model's insertion sort `StdOrder.sortBy` computes; on other collections std leaves the result unspecified (recorded finding
+            # C13-unsafe-collection / C09-sort-unsafe-collection: it may even panic), so the reading claims nothing there beyond what the C13 theorems state
+            if st[0] == 'expr' and st[1][0] == 'mcall' and st[1][2] == 'sort' and not st[1][4] and st[1][1][0] == 'path' and len(st[1][1][1]) == 1:
+                stmts = stmts[:i] + [('let', ('pbind', st[1][1][1][0]), ('call', ('path', ['__sort_by']), [st[1][1]]))] + stmts[i + 1:]
                 return self.block(('block', stmts, tail), env)
             # `for x in xs { if c { acc.push(x) } }`: a left fold over xs
             if st[0] == 'expr' and st[1][0] == 'for' and st[1][1][0] == 'pbind':
@@ -184,6 +190,10 @@ class StdCtx(Ctx):
         if k == 'call' and e[1] == ('path', ['f64', 'from']) and len(e[2]) == 1:
             s, t = self.tx(e[2][0], env)
             if t == 'ordering_i8': return f'StdOrder.ordCode {self.paren(s)}', 'f64'
+        if k == 'call' and e[1] == ('path', ['__sort_by']) and len(e[2]) == 1:
+            v, vt = self.tx(e[2][0], env)
+            if vt == 'values': return f'StdOrder.sortBy {self.paren(v)}', 'values'
+            raise Unrecognised('sort of a non-Vec')
         if k == 'call' and e[1] == ('path', ['__insert_at']) and len(e[2]) == 3:
             v, vt = self.tx(e[2][0], env); i, it = self.tx(e[2][1], env); x, xt = self.tx(e[2][2], env)
             if vt == 'values' and it == 'usize' and xt == 'value': return f'Stdlib.insertAt {self.paren(v)} {self.paren(i)} {self.paren(x)}', 'values'
@@ -503,7 +513,7 @@ BUILTINS = [('at', 'at_', True), ('between', 'between', False), ('bool', 'bool',
             ('if_then', 'if_then', False), ('length', 'length', False), ('all', 'all', False), ('any', 'any', False), ('max', 'max', False), ('min', 'min', False),
             ('reverse', 'reverse', False), ('float', 'float', False), ('int', 'int', False),
             ('copy', 'copy', True), ('count', 'count', False), ('find', 'find', True), ('replace', 'replace', False),
-            ('contains', 'contains', False), ('insert', 'insert', True), ('unique', 'unique', False)]
+            ('contains', 'contains', False), ('insert', 'insert', True), ('unique', 'unique', False), ('sort', 'sort', False)]
 
 def strip_macros(text):
     """remove `macro_rules! name { … }` definitions and `name!( … );` item invocations of those macros (their `$` syntax is outside the parser)"""
